@@ -171,3 +171,17 @@ Example c06_example_monitor_silent_on_model_trace :
   length (run_obs step_opt (hinit [1;0;0]%N) evs) = 9%nat /\
   run_check_keyed [1;0;0]%N evs (run_obs step_opt (hinit [1;0;0]%N) evs) = [].
 Proof. vm_compute. split; reflexivity. Qed.
+
+(* ------------------------------------------------------------------ *)
+(* The monitors on the MODEL's own observations, for every event list and configuration (see Props_C07.v for the full
+   account).  FULL STATEMENT WANTED:
+     forall cfg evs, monitor mon 0 (minit cfg) [] evs (run_obs step_opt (hinit cfg) evs) = []
+   PROVED for the clauses of [proved]; of property 6 these are 6/5 (the Release calls that got past the flag swap are the
+   ones the reference counts) and 6/9 (every observation of the model parses).  6/1 - 6/4 (key set, data, return values,
+   references) remain: the relation between the reference machine's key table and the model's key map is not yet
+   established; the bounded cross-check of ./check and the refinement theorems above cover them meanwhile. *)
+From Util Require Import Keyed.ProofsMon Keyed.ProofsMon2 Keyed.ProofsMonAll.
+Theorem c06_model_satisfies_monitors_clauses_6_5 : forall cfg evs,
+  monitor (mon_only proved) 0 (minit cfg) [] evs (run_obs step_opt (hinit cfg) evs) = [].
+Proof. exact model_satisfies_monitors_proved. Qed.
+Print Assumptions c06_model_satisfies_monitors_clauses_6_5.
